@@ -161,6 +161,21 @@ CLAIMS = {
           "ParquetFile.statistics exposes nothing and is accepted; sorted_partitioned_columns is exercised only through "
           "the statistics it reads."),
     technique="TLA+ spec as statistics oracle + TLC enumeration; spec->code replay through an independent decoder"),
+ "C11": dict(
+    level="model_checking",
+    text=("spec/Codec.tla has a FORMAT layer (varints, bit-packed runs, RLE runs, hybrid streams, boolean packing, delta-"
+          "binary-packed blocks over bit sequences, so that widths up to 64 need no wide integers) and a MECHANISM layer: "
+          "the refill/extract cursor machine of read_bitpacked / delta_read_bitpacked with its accumulator width and "
+          "counter range as constants. TLC checks EmittedPrefix, OutWithinCapacity, InWithinInput, ExactCount and "
+          "termination: they hold exactly up to the widths (24 and 28) beyond which the real decoders go wrong. The FORMAT "
+          "layer computes the test vectors bit by bit; every vector is decoded by the real functions with capacities "
+          "count-1, count, count+1 and item sizes 1 and 4 (values, count produced, both cursors, a guard zone behind the "
+          "output), and the real encoders' output is decoded back by the independent implementation."),
+    design_ref="DESIGN.md section 5 C11, section 10",
+    note=("Quick: widths {1,2,3,7,8,9,15,16,17,24,25,31,32}, delta widths {0..56 sample}; thorough: all widths 1..32 / 0..56, more "
+          "counts. Known findings KF-C11-1..3 (native accumulators too narrow: decode width >= 25, delta width >= 29, encode "
+          "width >= 25) cannot be repaired without Cython. The encoder's unpadded last group is accepted (lenient decode)."),
+    technique="TLA+ spec: model-checked decoder cursor machine + TLC-computed test vectors replayed into the real codecs"),
 }
 
 NOT_BUILT = "not built yet (construction order in DESIGN.md section 9)"
